@@ -78,6 +78,14 @@ def check_header(c):
     eq(devs, "hist.fields_after_another_header_was_decoded", obs_header(u1), want_obs(c))
     eq(devs, "hist.repack_after_another_header_was_decoded", bytes(u1.pack()), want)
     eq(devs, "hist.constructed_after_another_header_was_decoded", bytes(h.pack()), want)
+    # the library's own default configuration, ids then set in place through the field's value (width 1): the two ids are independent
+    dconf = cf.PduConfig.default()
+    dconf.dest_entity_id.value = c["dst"] & 0xFF
+    dconf.transaction_seq_num.value = c["seq"] & 0xFF
+    hd = H.PduHeader(d.PduType(c["pdu_type"]), d.SegmentMetadataFlag(c["seg_meta"]), c["dlen"], dconf)
+    cd_ = {"crc": int(dconf.crc_flag), "large": int(dconf.file_flag), "mode": int(dconf.trans_mode), "dir": int(dconf.direction), "segctrl": int(dconf.seg_ctrl), "idw": 1, "seqw": 1,
+           "src": 0, "dst": c["dst"] & 0xFF, "seq": c["seq"] & 0xFF}
+    eq(devs, "default_conf.ids_set_in_place.pack", bytes(hd.pack()), R.header(cd_, c["pdu_type"], cd_["dir"], c["seg_meta"], c["dlen"]))
     # every strict prefix is refused
     for n in range(hl):
         expect_raise(devs, "prefix", H.PduHeader.unpack, want[:n], accept=(BytesTooShortError,))
